@@ -1,6 +1,6 @@
 From Coq Require Import ExtrOcamlBasic.
-From GS Require Import Num Loops Summator_gen C11_Pointwise C11_Main C11_GenState C11_Inst.
+From GS Require Import Num Loops Summator_gen C11_Pointwise C11_Main C11_Incompr C11_GenState C11_Inst.
 Extraction "c11_model.ml" proto_anchor
   summate_sched summate_fourier_sched summate_incompr
-  randmeth_call fourier_call incompr_call rm_value fo_value pos_of grid_points flat_index point_at generate_grid
+  randmeth_call fourier_call incompr_call ic_value rm_value fo_value pos_of grid_points flat_index point_at generate_grid
   compare isclose cm_delta cm_mode_draws rmc_init rmc_step foc_init foc_step fill.
